@@ -888,10 +888,14 @@ public:
 	    \param sz size of string
 	    \param tag tag to extract to
 	    \param val value to extract to
-	    \return number of bytes consumed */
-	static unsigned extract_element(const char *from, const unsigned sz, char *tag, char *val)
+	    \param tag_sz size of the tag buffer
+	    \param val_sz size of the value buffer
+	    \return number of bytes consumed; 0 if malformed or if tag or value do not fit their buffers */
+	static unsigned extract_element(const char *from, const unsigned sz, char *tag, char *val,
+		const unsigned tag_sz=FIX8_MAX_FLD_LENGTH, const unsigned val_sz=FIX8_MAX_FLD_LENGTH)
 	{
 		enum { get_tag, get_value } state(get_tag);
+		const char *const tag_end(tag + tag_sz - 1), *const val_end(val + val_sz - 1); // room for the terminator
 
 		for (unsigned ii(0); ii < sz; ++ii)
 		{
@@ -904,6 +908,8 @@ public:
 						return *val = *tag = 0;
 					state = get_value;
 				}
+				else if (tag == tag_end)
+					return *val = *tag = 0;
 				else
 					*tag++ = from[ii];
 				break;
@@ -913,6 +919,8 @@ public:
 					*val = *tag = 0;
 					return ++ii;
 				}
+				if (val == val_end)
+					return *val = *tag = 0;
 				*val++ = from[ii];
 				break;
 			}
@@ -927,13 +935,17 @@ public:
 	    \param val_sz size of value to be extracted, not including field separator
 	    \param val value to extract to
 	    \return number of bytes consumed */
-	static unsigned extract_element_fixed_width(const char *from, const unsigned sz, const unsigned val_sz, char *tag, char *val)
+	static unsigned extract_element_fixed_width(const char *from, const unsigned sz, const unsigned val_sz, char *tag, char *val,
+		const unsigned tag_sz=FIX8_MAX_FLD_LENGTH)
 	{
+		const char *const tag_end(tag + tag_sz - 1); // room for the terminator
 		*val = *tag = 0;
 		for (unsigned ii(0); ii < sz; ++ii)
 		{
 			if(isdigit(from[ii]))
 			{
+				if (tag == tag_end)
+					break;
 				*tag++ = from[ii];
 				continue;
 			}
